@@ -8,7 +8,20 @@ package fsstore
 // in place of performing the operation (fault injection); the hook may also block
 // (schedule control) or not return at all (crash simulation).
 
+import (
+	"io"
+	"os"
+)
+
 const verifEnabled = true
+
+// verifWriterName is the staging path behind a writer returned by PutStream, "" if unknown.
+func verifWriterName(wr io.Writer) string {
+	if f, ok := wr.(*os.File); ok {
+		return f.Name()
+	}
+	return ""
+}
 
 // VerifHook is installed by the verification harness; nil means no-op.
 var VerifHook func(point string, path string) error
